@@ -79,6 +79,10 @@ CHECKS["C15"]=dict(level="fault_enumeration", ref="§C15",
    technique="exhaustive input-family and asset-fault enumeration on every loader entry point with panic, hang, allocation and asset-call monitors",
    text="Every loader entry point (SNA, SZX, TAP incl. playing and fast-load requests, SCR, ROM set, gzip-wrapped SNA, VTX) on both machines is driven with: all byte strings up to length 2 (quick: all of length <=1 and a structured quarter-thousand of length 2) and short alphabet strings; every prefix of every seed file (stride in quick for the big ones); boundary values of every structural field alone and in all pairs; every single-byte substitution in header regions plus a stride through the data; an asset fault of each kind {Err, one-byte short read, Ok(0), seek failure} at every call index (all pairs in thorough) and chunked reads. A case fails on a panic, on not returning within the watchdog limit, on exceeding the asset-call budget, on a single allocation out of proportion to the input, or when the emulator cannot emulate further frames afterwards.",
    note="Four exhaustive families, not all strings up to 160 KiB. Hung cases are detected by an in-process watchdog (thread abandoned and replaced). Not judged: vtx::Player.")
+CHECKS["C16"]=dict(level="exploration", ref="§C16",
+   technique="schedule enumeration (all compositions of K frames into calls, deviation-bounded stopwatch answers, breakpoint subsets, all drain patterns, asset implementations) with a differential digest oracle",
+   text="Five scenarios (ROM boot, ROM with key events at frame boundaries, autoloaded tape with fast load, real-time tape load, AY/beeper tune snapshot) on both machines are driven in every composition of the K frames into FrameCount(n) calls, in Max mode with each stopwatch reading chosen from {0, limit, limit+1 ns} up to a deviation bound, with breakpoint stops at subsets of eight ROM addresses and at every instruction, with sound off, with every drain/no-drain pattern, and with the same file bytes delivered by BufferCursor, chunked reads, a real file and GzipAsset; at every frame boundary reached, a digest of registers, all RAM, paging, frame clock, both frame buffers (and audio where comparable) must equal the default driving's digest for that frame; the default is run twice.",
+   note="Exploration level: scenarios are five programs, K = 6 (quick) / 12 (thorough) frames. Not judged: number of frames a Max call emulates; audio when not drained every frame.")
 NOT_YET = {
 }
 def main():
